@@ -69,7 +69,12 @@ impl BurnableOverrides for Consecutive {
 /// ├── Item 99 → bits for Token IDs 31_968..31_999
 ///
 /// Number of elements in a bucket
+#[cfg(not(stellar_verif))]
 pub const ITEMS_IN_BUCKET: usize = 100;
+// Verification hook (off by default): a two-item bucket keeps the bucket-crossing logic within reach of
+// bounded model checking. Enabled only with `RUSTFLAGS="--cfg stellar_verif"`.
+#[cfg(stellar_verif)]
+pub const ITEMS_IN_BUCKET: usize = 2;
 /// Number of IDs per item, which corresponds to the number of bits for a given
 /// value
 pub const IDS_IN_ITEM: usize = mem::size_of::<u32>() * 8; // 32
